@@ -154,7 +154,7 @@ pub fn build(e: &mut Ent, f: &Force) -> (StepCase, Insn, Option<u32>, u32) {
         }
     }
     let bus = e.bus_cfg();
-    (StepCase { code, pc, er, ccr, patches, bus, irq: None }, insn, target, moved)
+    (StepCase { code, pc, er, ccr, patches, bus, irq: None, primer: None }, insn, target, moved)
 }
 
 fn classify(case: &StepCase, j: &Judged, stats: &mut Stats, insn: &Insn, target: Option<u32>, moved: u32) {
@@ -196,6 +196,9 @@ fn classify(case: &StepCase, j: &Judged, stats: &mut Stats, insn: &Insn, target:
 
 pub fn run(ctx: &Ctx) -> i32 {
     if let Some(v) = &ctx.replay {
+        if crate::checks::soup::is_soup_replay(v) {
+            return crate::checks::soup::replay(ctx, P, v);
+        }
         return replay_step(ctx, P, v);
     }
     let fs = forms();
@@ -257,5 +260,8 @@ pub fn run(ctx: &Ctx) -> i32 {
     let rule = "cases = every MOV form of the decode table (register, immediate, @ERn, @(d:16/24,ERn), @ERn+/@-ERn, @aa:8/16/24, both directions) with enumerated register fields / CCR / data values crossed with proptest-generated register files, operand addresses (RAM, DRAM, vector area incl. first/last bytes), displacements, upper bytes, code placement and bus settings; the oracle is the reference model's complete post-state (registers, CCR, PC, all memory). Non-trivial = the moved value differs from what the destination held before and the operand is not at the unit tests' address 0xffcf20; distinct by (form, register fields, operand region/position, value class, initial CCR).";
     let mut extra = Map::new();
     extra.insert("masked_details".into(), json!(["data register overlapping the address register in @ERn+/@-ERn forms is excluded by construction (precondition of the property)"]));
+    stats.merge(crate::checks::soup::phase(ctx, P, crate::checks::soup::Flavor::Mov, ctx.tier.pick(300000, 6000000), 0x1510000, false));
+    let rule_soup = format!("{}{}", rule, crate::checks::soup::RULE);
+    let rule: &str = &rule_soup;
     finish(ctx, P, stats, rule, vec!["reference model transcribed from the H8/300H programming manual (DESIGN 1.3, Appendix A)".into()], extra)
 }
